@@ -220,6 +220,43 @@ def body(run):
             problems['parameter mask larger than the joint mask'] = [int(x) for x in np.argwhere(P['mask'] & ~joint)[0]]
         if problems:
             run.add_violation('parameter image is not the model that was applied', desc, observed=problems, signature=dict(kind='layout-e2e', parts=sorted(problems)))
+    # ---- a large source (> 1000 px) whose valid data are a solid area plus thin isolated slivers far away from it: the parameter image is valid
+    #      wherever both images are - nothing may be decided from a decimated look at the source
+    for k in range(run.scale(1, 3)):
+        ratio = 2
+        ph, pw = 540 + 30 * rng.randint(0, 2), 300 + 30 * rng.randint(0, 2)
+        g = synth.Geom(1.0, ratio, 16.0, 48.0, (ph + 6, pw + 6), (3, 3), (ph * ratio, pw * ratio))
+        sm = np.zeros(g.src_shape, bool)
+        Hs, Ws = g.src_shape
+        sm[Hs // 2 - 100:Hs // 2 + 100, Ws // 2 - 100:Ws // 2 + 100] = True
+        # one-pixel slivers at the four extremes, far from the solid area, on rows / columns of different residues (whatever a decimation samples,
+        # it misses some of them)
+        sm[10 + k % 3, Ws // 2 - 40:Ws // 2 + 40] = True
+        sm[Hs - 12 - k % 3, Ws // 2 - 40:Ws // 2 + 40] = True
+        sm[Hs // 2 - 40:Hs // 2 + 40, 11 + k % 3] = True
+        sm[Hs // 2 - 40:Hs // 2 + 40, Ws - 10 - k % 3] = True
+        yy, xx = np.mgrid[0:g.src_shape[0], 0:g.src_shape[1]]
+        src = (40 + 0.01 * yy + 0.02 * xx + (yy % 7) + (xx % 5)).astype('float32')[None]
+        ref = (60 + 0.02 * np.add.outer(np.arange(g.ref_shape[0]), 2 * np.arange(g.ref_shape[1])) +
+               np.add.outer(np.arange(g.ref_shape[0]) % 5, np.arange(g.ref_shape[1]) % 3)).astype('float32')[None]
+        pair = fz.make_pair(run.work, g, rng, src=src, ref=ref, smask=sm, tag='big')
+        mbm, nblk = fz.pick_block_mem(pair['src_fn'], pair['ref_fn'], 'auto', 16, (3, 3))
+        res = fz.fuse(pair['src_fn'], pair['ref_fn'], run.work / 'big_out.tif', model='gain', kernel_shape=(3, 3), proc_crs='auto', max_block_mem=mbm, threads=2,
+                      model_config=dict(upsampling='nearest'), out_profile=dict(dtype='float32', nodata=NAN))
+        joint = np.zeros(g.ref_shape, bool)
+        joint[3:3 + ph, 3:3 + pw] = sm.reshape(ph, ratio, pw, ratio).any(axis=(1, 3))
+        P = res['param']
+        desc = dict(geom=g.describe(), model='gain', blocks=nblk, max_block_mem=mbm, source_mask='solid area + four one-pixel slivers at the extremes')
+        dist['large-source/gain'] = dist.get('large-source/gain', 0) + 1
+        run.count_case(('big', k), True, desc if k < 1 else None)
+        gain_valid = np.isfinite(P['array'][0])
+        problems = {}
+        if (joint & ~gain_valid).any():
+            problems['gain band invalid where both images are valid'] = dict(pixel=[int(x) for x in np.argwhere(joint & ~gain_valid)[0]], n=int((joint & ~gain_valid).sum()))
+        if (gain_valid & ~joint).any():
+            problems['gain band valid where source or reference is not'] = [int(x) for x in np.argwhere(gain_valid & ~joint)[0]]
+        if problems:
+            run.add_violation('parameter image is not the model that was applied', desc, observed=problems, signature=dict(kind='layout-e2e', parts=sorted(problems)))
     failing, nt = run.corr('layout', 'Corr.CheckC14', cases)
     for k in failing[:5]:
         run.add_break('correspondence-break', 'parameter image band layout / labels differ from Grid.Layout (param_index, label_of, validator)', metas[k])
